@@ -210,6 +210,11 @@ def explore_velocity(case):
             raw = psi + 60 * math.pi / 180 * yaw * dt
             if abs(math.remainder(psi1 - raw, 2 * math.pi)) > 1e-9:
                 res.fail(site="input_velocity", clause="yaw_setpoint_is_wrapped_integral_of_stick", cls="-", detail=dict(info, psi_sp1=psi1, unwrapped=raw), sub="velocity", case=case)
+            # the secondary outputs: yaw-rate feed-forward is the (bounded, linear) stick map, acceleration feed-forward is zero
+            if abs(psiv - 60 * math.pi / 180 * yaw) > 1e-12:
+                res.fail(site="input_velocity", clause="yaw_rate_command_is_linear_bounded_stick_map", cls="-", detail=dict(info, psi_vel_sp=psiv, want=60 * math.pi / 180 * yaw), sub="velocity", case=case)
+            if not np.all(np.isfinite(aw)) or maxabs(aw) != 0:
+                res.fail(site="input_velocity", clause="acceleration_feed_forward_is_zero", cls="-", detail=dict(info, aw_sp=aw), sub="velocity", case=case)
             dist = float(np.linalg.norm(pw1 - pw))
             if dist > 2.0 + 1e-9 * (1 + maxabs(pw)):
                 res.fail(site="input_velocity", clause="position_setpoint_within_2m_of_vehicle", cls="reset=%d" % int(reset), detail=dict(info, pw_sp1=pw1, distance=dist), sub="velocity", case=case)
